@@ -348,12 +348,12 @@ func (d *D) check(sc *core.Scenario, ctx *core.Ctx) *core.Violation {
 		return map[string]any{"end": res.EndClass, "message": trunc(res.EndMsg, 300), "top_evy_frame": res.TopFrame, "stage": res.Stage, "events_handled": res.EventsDone}
 	}
 	if res.EndClass == core.EndHostPanic {
-		return &core.Violation{Oracle: "no-host-panic", Signature: "host-panic:" + res.TopFrame + ":" + sigOf(res.HostPanic),
+		return &core.Violation{Oracle: "no-host-panic", Signature: "host-panic:" + trunc(sigOf(res.HostPanic), 34),
 			Expected: "execution ends by normal completion, a documented Evy panic, exit, a failed test or an external stop – never by crashing the host runtime",
 			Observed: obs(), Match: map[string]string{"outcome": "host-panic", "top_evy_frame": res.TopFrame, "value": sigOf(res.HostPanic)}}
 	}
 	if !allowedEnd(res.EndClass) {
-		return &core.Violation{Oracle: "no-internal-error", Signature: "end:" + res.EndClass + ":" + sigOf(res.EndMsg),
+		return &core.Violation{Oracle: "no-internal-error", Signature: "end:" + res.EndClass + ":" + trunc(sigOf(res.EndMsg), 50),
 			Expected: "never an internal or type error", Observed: obs(), Match: map[string]string{"outcome": res.EndClass}}
 	}
 	if strings.HasPrefix(res.EndClass, core.EndStopped) && res.P != nil && !res.P.Raised {
